@@ -145,6 +145,9 @@ func forwarderEngine(args []string) error {
 		var usedDoms []string
 		for j := 0; j < nf; j++ {
 			up := r.rng(1, nup)
+			if r.coin(22) {
+				up = nup + r.rng(1, 2) // nothing listens there: the lookup fails at once (connection refused)
+			}
 			addr := fmt.Sprintf("127.0.0.1:%d", 6000+up)
 			if r.coin(12) {
 				// domain-less entry
@@ -261,10 +264,13 @@ func profileEngine(args []string) error {
 		ifaces = append(ifaces, "nxv0", "nxv1")
 	}
 	cidrs := []string{"10.0.0.0/8", "10.1.0.0/16", "10.1.2.0/24", "10.1.2.3/32", "192.168.0.0/16", "192.168.1.0/25", "0.0.0.0/0",
-		"fd00::/8", "fd00:1::/32", "fd00:1:2::/48", "::/0", "10.1.2.77/24", "172.16.5.4/12", "2001:db8::1/64"}
+		"fd00::/8", "fd00:1::/32", "fd00:1:2::/48", "::/0", "10.1.2.77/24", "172.16.5.4/12", "2001:db8::1/64",
+		// nested subnets sharing their network address, and a v4 / v4-mapped pair
+		"10.0.0.0/16", "10.0.0.0/24", "10.1.2.0/28", "192.168.0.0/24", "fd00::/48", "fd00::/64", "0.0.0.0/8", "::ffff:10.0.0.0/104"}
 	macs := []string{"00:11:22:33:44:55", "00:11:22:33:44:56", "aa:bb:cc:dd:ee:ff", "AA:BB:CC:DD:EE:00", "00-11-22-33-44-55", "0011.2233.4455"}
 	srcs := []string{"10.1.2.3", "10.1.2.4", "10.1.3.1", "10.2.0.1", "192.168.1.5", "192.168.1.200", "172.16.0.1", "172.20.1.1", "8.8.8.8",
-		"fd00:1:2::5", "fd00:1:3::1", "fd01::1", "2001:db8::5", "::ffff:10.1.2.3", "127.0.0.1", "::1"}
+		"fd00:1:2::5", "fd00:1:3::1", "fd01::1", "2001:db8::5", "::ffff:10.1.2.3", "127.0.0.1", "::1",
+		"10.0.0.5", "10.0.9.9", "10.77.1.9", "10.1.2.9", "10.1.2.200", "192.168.0.7", "fd00::5", "fd00:0:0:1::5", "fd77::1", "0.1.2.3"}
 	dsts := []string{"127.0.0.1", "::1", "10.9.0.1", "fd00:9::1", "10.9.0.2", "192.168.1.1"}
 	for i := 0; i < c.n; i++ {
 		var ps config.Profiles
@@ -284,7 +290,10 @@ func profileEngine(args []string) error {
 					return err
 				}
 				_, n, _ := net.ParseCIDR(cs)
-				ones, _ := n.Mask.Size()
+				ones, bits := n.Mask.Size()
+				if n.IP.To4() != nil && bits == 128 && ones >= 96 {
+					ones -= 96 // net.IPNet.Contains reads a v4-mapped prefix as the IPv4 prefix
+				}
 				toks = append(toks, fmt.Sprintf("P%s/%d", hx(ipNorm(n.IP)), ones), sx(id))
 			case 3:
 				m := macs[r.intn(len(macs))]
